@@ -828,3 +828,19 @@ mod tests {
         assert_eq!(predicted_pops, actual_pops);
     }
 }
+
+#[cfg(feature = "verif-hooks")]
+#[doc(hidden)]
+pub mod verif_hooks {
+    use super::{FatPage, PageNumber, PagePool};
+
+    pub const MAX_PNS_PER_PAGE: usize = super::MAX_PNS_PER_PAGE;
+
+    pub fn encode_free_list_page(page_pool: &PagePool, prev: PageNumber, pns: &[PageNumber]) -> FatPage {
+        super::encode_free_list_page(page_pool, prev, pns)
+    }
+
+    pub fn decode_free_list_page(page: FatPage, max_pn: u32) -> (PageNumber, Vec<PageNumber>) {
+        super::decode_free_list_page(page, max_pn)
+    }
+}
